@@ -139,7 +139,7 @@ func EvaluateDiv(lhs, rhs system.Any) (system.Any, error) {
 			if isZeroDecimal(right) {
 				return nil, system.ErrDivideByZero
 			}
-			return left.Div(right), nil
+			return left.Quotient(right)
 		}
 		if _, ok := rhs.(system.Quantity); ok {
 			return nil, fmt.Errorf("%w: PHP-7340", ErrToBeImplemented)
